@@ -332,7 +332,12 @@ func (svg *SVGImage) drawMarkers(dst backend.Canvas, vertices []vertex, node *sv
 		// draw marker path
 		for _, child := range marker.children {
 			dst.OnNewStack(func() {
-				dst.State().Transform(matrix.Transform{A: scaleX, D: scaleY, E: vertex.x, F: vertex.y})
+				cos, sin := Fl(math.Cos(float64(angle))), Fl(math.Sin(float64(angle)))
+				dst.State().Transform(matrix.Transform{
+					A: scaleX * cos, B: scaleX * sin,
+					C: -scaleY * sin, D: scaleY * cos,
+					E: vertex.x, F: vertex.y,
+				})
 				dst.State().Transform(matrix.Translation(-translateX, -translateY))
 
 				overflow := marker.overflow
